@@ -37,7 +37,7 @@ def gen(run):
 
 
 def correspond(run, corr):
-    wc.correspond(run, corr, ["fuzz", "mixed", "ctrl"], 300, 4000)
+    wc.correspond(run, corr, ["fuzz", "mixed", "ctrl"], 5000, 80000)
     trxcon_part.correspond(run, corr, parts=("rxd", "rsp"))
     if trxd_part:
         trxd_part.correspond_c14(run, corr)
@@ -45,7 +45,7 @@ def correspond(run, corr):
 
 def search(run, corr, deep):
     found = wc.c14_oracle(run, corr, deep)
-    found += wc.oracle(run, corr, deep, ID, ["mixed", "traffic"], 100, 1500)   # "exception escaped" on clean histories
+    found += wc.oracle(run, corr, deep, ID, ["mixed", "traffic"], 1500, 30000)   # "exception escaped" on clean histories
     found += trxcon_part.oracle(run, corr, deep, parts=("rxd", "rsp"))
     if trxd_part:
         found += trxd_part.oracle_c14(run, corr, deep)
